@@ -995,12 +995,14 @@ C04_THEOREMS = ["fwd_first_window", "fwd_windows_tile", "rev_first_window", "rev
                 "residue_loop_closed_form", "header_fasta_closed_form", "read_one_record_closed_form", "open_is_openFasta",
                 "read_all_eq_parseFasta", "read_all_eq_specFasta", "read_all_block_size_independent",
                 "readInfo_closed_form", "readSequence_closed_form", "read_readInfo_readSequence_agree",
-                "windows_eq_read", "windows_then_ready", "windows_concat_eq_read", "windows_coords", "read_nres_closed_form", "readBlock_short_eq_read", "write_read_roundtrip", "writeFasta_is_fastaText", "write_read_roundtrip_digital", "writeFasta_is_fastaText_digital",
+                "windows_eq_read", "windows_then_ready", "file_windows_eq_specFasta", "windows_concat_eq_read", "windows_coords", "read_nres_closed_form", "readBlock_short_eq_read", "write_read_roundtrip", "writeFasta_is_fastaText", "write_read_roundtrip_digital", "writeFasta_is_fastaText_digital",
                 "loadbuf_line_closed_form", "loadbuf_line_block_size_independent", "open_line_based",
                 "rev_first_window_eq_revcomp_slice", "rev_next_window_eq_revcomp_slice",
-                "header_embl_block_size_independent", "header_genbank_block_size_independent", "read_linebased_block_size_independent", "open_line_based_sim"]
+                "header_embl_block_size_independent", "header_genbank_block_size_independent", "read_linebased_block_size_independent", "open_line_based_sim",
+                "read_all_linebased_block_size_independent", "readInfo_readSequence_linebased_block_size_independent",
+                "readWindow_readBlock_linebased_block_size_independent"]
 C02_THEOREMS = ["loadbuf_total", "nextchar_total", "nextchar_no_fault", "seebuf_total", "inmaps_agree",
-                "read_total", "read_no_fault", "readInfo_total", "readSequence_total", "read_all_total", "readBlock_total", "read_nres_total"]
+                "read_total", "read_no_fault", "readInfo_total", "readSequence_total", "read_all_total", "readBlock_total", "read_nres_total", "read_nres_total_any", "readWindow_total", "read_linebased_total", "read_all_linebased_total"]
 C07_THEOREMS = ["findSubseq_absent", "findSubseq_out_of_range", "fetchSubseq_absent", "fetchSubseq_start_out_of_range", "findSubseq_cases",
                 "lands_on_start_line", "lands_on_start_residue", "lands_on_start_none", "bplrpl_sound_partial", "bplrpl_unsound_single_line", "bplrpl_unsound_at_init",
                 "echo_eq_scan_bytes", "echo_unset_offsets", "echo_of_scanned_record", "echo_of_read_record",
